@@ -17,6 +17,8 @@ import time
 import numpy as np
 
 MASK_DTYPES = ['bool', 'int64', 'float64', 'uint8']
+DATA_DTYPES = ['float64', 'int16', 'int32', 'int64', 'float32']
+INT_DTYPES = ['int16', 'int32', 'int64']
 RDM_METHODS = ['euclidean', 'correlation', 'mahalanobis', 'poisson', 'crossnobis', 'poisson_cv']
 
 
@@ -186,9 +188,12 @@ def euclid_kernel(data, events, cols):
     return np.array(out)
 
 
-def check_rdms(shape, centres, neigh, method, variant=0, seed=0, n_cond=3, n_rep=2, record_inputs=True):
+def check_rdms(shape, centres, neigh, method, variant=0, seed=0, n_cond=3, n_rep=2, record_inputs=True,
+               dtype='float64'):
     """get_searchlight_RDMs(data, centres, neighbours, events, method) against a direct calc_rdm on the
-    columns of every searchlight.  Returns (violations, info)."""
+    columns of every searchlight.  ``dtype`` is the dtype of the data matrix handed over (the tokens are
+    integers, so an integer matrix is natural); the direct computation always uses a float64 copy of the same
+    values.  Returns (violations, info)."""
     import rsatoolbox
     from rsatoolbox.data import Dataset
     sl = _sl()
@@ -196,16 +201,22 @@ def check_rdms(shape, centres, neigh, method, variant=0, seed=0, n_cond=3, n_rep
     n_obs = n_cond * n_rep
     data, perm = token_data(n_obs, n_vox, seed)
     events = events_for(n_cond, n_rep, variant, seed)
-    if method == 'correlation' or method == 'mahalanobis':
+    if dtype == 'float64' and (method == 'correlation' or method == 'mahalanobis'):
         data = data / 7.0
+    typed = data.astype(dtype)                 # integer tokens: exact in every dtype used (max 6 * n_vox < 32767)
+    data = typed.astype('float64')
+    if not np.array_equal(data, typed):
+        raise ValueError('token data not representable in ' + dtype)
     c_in = np.array(centres, dtype=int)
     nb_in = [np.array(n, dtype=int) for n in neigh]
-    if variant % 2 == 1:
+    if variant % 2 == 1 and dtype == 'float64':
         data_in, ev_in = data.tolist(), list(events.tolist())
     else:
-        data_in, ev_in = data, events
+        data_in, ev_in = typed, events
+    # same float computation on float64 / integer data; float32 input may legitimately be averaged in float32
+    rtol = 1e-6 if dtype == 'float32' else 1e-12
     case = {'shape': list(shape), 'n_centres': len(centres), 'method': method, 'variant': variant, 'seed': seed,
-            'events': events.tolist()}
+            'events': events.tolist(), 'data_dtype': dtype}
     seen = []
     real_calc = sl.calc_rdm
 
@@ -254,9 +265,9 @@ def check_rdms(shape, centres, neigh, method, variant=0, seed=0, n_cond=3, n_rep
     for i in range(len(centres)):
         ds = Dataset(data[:, nb_in[i]], obs_descriptors={'events': events})
         direct = rsatoolbox.rdm.calc_rdm(ds, method=method, descriptor='events').dissimilarities[0]
-        if not np.allclose(diss[i], direct, rtol=1e-12, atol=1e-12, equal_nan=True):
+        if not np.allclose(diss[i], direct, rtol=rtol, atol=1e-12, equal_nan=True):
             bad.append((f'c/rdms/value/{"chunked" if len(centres) > 1000 else "unchunked"}',
-                        'RDM reported for a centre differs from calc_rdm on the columns of its searchlight',
+                        'RDM reported for a centre differs from calc_rdm on (a float64 copy of) the columns of its searchlight',
                         {**case, 'position': i, 'centre': int(centres[i]), 'columns': list(map(int, neigh[i])),
                          'got': diss[i].tolist(), 'direct': direct.tolist()}))
             break
